@@ -87,12 +87,10 @@ class ParallelStep(GeneticStep):
     def compute_ranges(self, population, target_size):
         """Computes the ranges for each slide, according to weights."""
         total = sum(self.weights)
-        indices = [0] + self.cumsum(
-            [int(round(w * len(population) / total, 0)) for w in self.weights],
-        )
+        # Slice boundaries are the rounded cumulative shares of the *target* size: they never decrease
+        # and the last one is exactly target_size, whatever the weights and rounding.
+        indices = [0] + [int(round(w * target_size / total, 0)) for w in self.cumsum(self.weights)]
         ranges = list(zip(indices, indices[1:]))
-        if ranges[-1][0] < target_size:
-            ranges[-1] = (ranges[-1][0], target_size)
         return ranges
 
     def iterate(
@@ -116,7 +114,7 @@ class ParallelStep(GeneticStep):
                     evaluator,
                     representation,
                     random,
-                    population,
+                    npopulation,
                     end - start,
                     generation,
                 )
@@ -154,21 +152,17 @@ class ExclusiveParallelStep(ParallelStep):
         generation: int,
     ) -> Iterator[Individual]:
         npopulation: list[Individual] = list(population)
-        total = sum(self.weights)
-        indices = [0] + self.cumsum(
-            [int(round(w * len(npopulation) / total, 0)) for w in self.weights],
-        )
-        ranges = list(zip(indices, indices[1:]))
+        ranges = self.compute_ranges(npopulation, target_size)
         assert len(ranges) == len(self.steps)
-        ranges[-1] = (ranges[-1][0], target_size)  # Fix the last position
 
         for (start, end), step in zip(ranges, self.steps):
-            yield from step.apply(
-                problem,
-                evaluator,
-                representation,
-                random,
-                iter(npopulation[start:end]),
-                end - start,
-                generation,
-            )
+            if end - start > 0:
+                yield from step.apply(
+                    problem,
+                    evaluator,
+                    representation,
+                    random,
+                    iter(npopulation[start:end]),
+                    end - start,
+                    generation,
+                )
